@@ -7,6 +7,7 @@ import (
 	"testing"
 	"testing/synctest"
 
+	"github.com/herohde/morlock/pkg/simhook"
 	"verif/sim/core"
 	"verif/sim/tape"
 )
@@ -15,6 +16,7 @@ import (
 // If goroutines of the code under test are still blocked when the run ends, synctest
 // panics in this goroutine; that is recorded as a probe, not as a verdict.
 func InBubble(t *testing.T, spec *Spec, tp *tape.Tape) (res *core.RunResult) {
+	defer simhook.Set(nil)
 	defer func() {
 		if r := recover(); r != nil {
 			if res == nil {
@@ -23,6 +25,7 @@ func InBubble(t *testing.T, spec *Spec, tp *tape.Tape) (res *core.RunResult) {
 				return
 			}
 			res.Probes["goroutines-left-blocked-at-end"]++
+			judgeRunaway(spec, res)
 		}
 	}()
 	synctest.Test(t, func(t *testing.T) {
@@ -34,7 +37,22 @@ func InBubble(t *testing.T, spec *Spec, tp *tape.Tape) (res *core.RunResult) {
 		}()
 		res = spec.Run(tp)
 	})
+	judgeRunaway(spec, res)
 	return res
+}
+
+// judgeRunaway: a task that kept passing hook points for ever during the teardown (everything halted,
+// the root context cancelled) was stopped by the kernel. For the properties that promise that a halted
+// search ends / the driver shuts down this is a verdict; for the others the run has none.
+func judgeRunaway(spec *Spec, res *core.RunResult) {
+	if res == nil || res.Runaway == "" || len(res.Violations) > 0 {
+		return
+	}
+	if spec.RunawayKind == "" {
+		res.Inconclusive["runaway-task-in-teardown"]++
+		return
+	}
+	res.Violate(spec.Prop, spec.RunawayKind, res.Steps, "after the session had halted every search and cancelled the context everything was launched with, a task of the code under test kept running: it passed 200000 hook points (the last one: %s) without ending", res.Runaway)
 }
 
 // HarnessPanic reports a bug of the simulator itself and ends the worker with exit status 2.
